@@ -822,10 +822,12 @@ def generate(rng, prop, tier):
         pool = pool + extra
     if prop == 'C01' and rng.chance(0.12) and not (km['kind'] == 'pickle' and km['arg'] == 'json') and \
        not (cfg['backend'] and cfg['backend']['label'] in ('file-src', 'dir-src', 'file-json', 'dir-json')) and \
-       fn not in ('b1', 'r1', 'n9') and not (km['kind'] == 'raw' and cfg['backend'] and B.is_persistent(cfg['backend'])):
-        # (a raw key holding such an object has no meaning in a persistent store: its unpickled copy is another object)
+       fn not in ('b1', 'r1', 'n9') and not (cfg['backend'] and B.is_persistent(cfg['backend'])):
+        # (in memory only: keys that embed an address differ from process to process, and on disk their sorted
+        # listing order - hence what a bulk load does - would differ with them: the run would not replay exactly)
         # two live objects of one class with the default repr: different arguments, whatever the keymap prints
         pool = [PLAIN[1], PLAIN[2]] + pool
+        cfg['plain'] = True
     if prop == 'C02' and km['kind'] == 'raw' and cfg['backend'] is not None and rng.chance(0.5) and \
        cfg['backend']['label'] in ('dir-pkl', 'dir-fast', 'dir-z', 'dir-mmap'):
         # a key that is not equal to its own unpickled copy: float nan, the usual missing-value marker (the same
@@ -2014,9 +2016,10 @@ def execute(case, prop, ctx):
                     viol = compare_twins(case, prop, trace_a, trace_b, skip)
             h = hashlib.sha1()
             sh = []
+            anon = bool(case['cfg'].get('plain'))     # keys embed (hashes of) memory addresses: count them instead
             for (step, o, kind, val) in trace_a:
-                h.update(repr((step, o['info'], sorted(map(show, o['mem'])), o['on'],
-                               sorted(map(show, o['arch'])) if o['arch'] is not None else None,
+                h.update(repr((step, o['info'], len(o['mem']) if anon else sorted(map(show, o['mem'])), o['on'],
+                               (len(o['arch']) if anon else sorted(map(show, o['arch']))) if o['arch'] is not None else None,
                                kind, show(val))).encode())
                 sh.append('%s%d' % (kind[:2], len(o['mem'])))
             digest = h.hexdigest()
